@@ -156,12 +156,12 @@ pub fn bfs(cfg: &Cfg, events: &[Event], cookies: &HashMap<FlowKey, u32>, o: &Bfs
                         let mut key = "interference".to_string();
                         if let Some(fk) = &e.flow {
                             if let Some(c) = cookies.get(fk) {
-                                let alias = n.hist.iter().any(|k| {
-                                    let h = &events[*k];
+                                let alias = n.hist.iter().find(|k| {
+                                    let h = &events[**k];
                                     h.flow.is_some() && h.flow != e.flow && cookies.get(h.flow.as_ref().unwrap()) == Some(c)
                                 });
-                                if alias {
-                                    key = "cookie-alias".to_string();
+                                if let Some(k) = alias {
+                                    key = crate::model::alias_key(fk, events[*k].flow.as_ref().unwrap());
                                 }
                             }
                         }
